@@ -221,7 +221,8 @@ def _get_module_namespace(module):
 
 
 def _cpp_string_escape(string):
-    return re.sub("['\"\\\\]", r"\\\0", string)
+    # (In a replacement string, `\0` would be a NUL character, not the match.)
+    return re.sub("['\"\\\\]", r"\\\g<0>", string)
 
 
 def _get_includes(module, config: Config):
